@@ -58,7 +58,9 @@ AccFields == {"hints", "details", "fhints", "fdetails", "links", "tags", "domain
 
 \* compare a recorded accessor observation with a model one
 AccDiff(ra, ma) ==
-  {f \in AccFields : ra[f] # ma[f]} \cup (IF SeqToSet(ra.keys) # ma.keys THEN {"keys"} ELSE {})
+  {f \in AccFields : ra[f] # ma[f]}
+  \* (telemetry keys are a set: the same keys, none of them twice)
+  \cup (IF SeqToSet(ra.keys) # ma.keys \/ Len(ra.keys) # Cardinality(ma.keys) THEN {"keys"} ELSE {})
   \cup (IF SeqToSet(ra.hastype) # ma.hastype THEN {"hastype"} ELSE {})
 \* before / after a hop: every accessor, the OS predicates, the frames of every
 \* reportable stack trace and the one-line source (types change: not compared)
@@ -170,8 +172,11 @@ ReportStd(ev, v, sl, own) ==
                   \* only exposes Cause() the library may find an earlier match
                   \/ (noCauseOnly /\ (a[1] # a[2] \/ (a[1] >= 1 /\ a[3] # 1)))
                   \/ (a[1] >= 1 /\ ~(a[2] >= 1 /\ a[2] <= a[1]))}
-      badUnw == (v.ty \notin CauseOnlyTy /\ ~s.unwrapEq) \/ (IsMulti(v) /\ ~(s.stdUnwNil /\ s.libUnwNil))
-      allCause == \A i \in 1..Len(Chain(v)) : Chain(v)[i].ty \notin NoCauseTy
+      badUnw == (v.ty \notin CauseOnlyTy /\ ~s.unwrapEq)
+                \/ (IsMulti(v) /\ v.ty # "uMultiCause" /\ ~(s.stdUnwNil /\ s.libUnwNil))
+      \* (a chain that ends at a multi-cause node with Cause() goes on, for pkg/errors and for
+      \* the library, into layers the model's chain does not list)
+      allCause == \A i \in 1..Len(Chain(v)) : Chain(v)[i].ty \notin NoCauseTy \cup {"uMultiCause"}
       badCause == ~s.causeEq \/ (allCause /\ s.pkgRoot # s.libRoot)
       \* the value's own nodes, as the standard library can reach them, are recognized by it
       off == Len(Concat([i \in 1..(ev.step.dst - 1) |-> AllNodes(sl[i])]))
@@ -198,7 +203,8 @@ ReportBuild(ev, new, tn, tall) ==
   IN
   /\ Chk(o.panic = "", ev, "panic", "verdict", {"C08", "C10"}, "", o.panic)
   /\ Chk(o.nil = IsNil(v), ev, "nil", "verdict", {"C10"}, IsNil(v), o.nil)
-  /\ IF o.nil \/ IsNil(v) THEN TRUE
+  \* (a panic inside an observer leaves nothing else to judge)
+  /\ IF o.nil \/ IsNil(v) \/ o.panic # "" THEN TRUE
      ELSE
      /\ ReportOuts(ev, v, tn)
      /\ ReportAny1(ev)
@@ -279,7 +285,7 @@ ReportHop(ev, base, new, tn) ==
   IN
   /\ Chk(o.panic = "", ev, "panic", "verdict", {"C01", "C04", "C05"}, "", o.panic)
   /\ Chk(o.nil = IsNil(v), ev, "nil", "conf", {}, IsNil(v), o.nil)
-  /\ IF o.nil \/ IsNil(v) \/ p.nil THEN TRUE
+  /\ IF o.nil \/ IsNil(v) \/ p.nil \/ o.panic # "" \/ p.panic # "" THEN TRUE
      ELSE
      /\ ReportOuts(ev, v, tn)
      /\ ReportAny1(ev)
@@ -397,7 +403,9 @@ ReportStack(ev) ==
 \* ---- through the gRPC interceptors (C20): relation between the error received
 \* through the real interceptors and the same error transferred directly (both
 \* recorded), and the status code visible to callers
-CodeNum(a) == IF a = <<>> THEN 2 ELSE CASE a[1] = "n5" -> 5 [] a[1] = "n404" -> 404 [] OTHER -> 2
+CodeNum(a) == IF a = <<>> THEN 2
+              ELSE LET ks == {k \in (0..16) \cup {404} : a[1] = "n" \o ToString(k)} IN
+                   IF ks = {} THEN 2 ELSE CHOOSE k \in ks : TRUE
 ReportGrpc(ev, base, new) ==
   LET st == ev.step
       e == base[st.src[1]]
